@@ -65,7 +65,11 @@ mutual
       is a leaf carrying the value node. -/
   def denote : Node → AttrTree
     | .set _ vs _ _ _ => .node (denoteL vs)
-    | n => .leaf n
+    | .atom t => .leaf (.atom t)
+    | .ident n => .leaf (.ident n)
+    -- a Binding / Inherit / _AttrpathEntry object is never the value of a binding; an ill-typed
+    -- graph reads as an opaque leaf
+    | _ => .leaf (.atom [])
   /-- the attributes a `values` list defines, in order -/
   def denoteL : List Node → Kids
     | [] => []
@@ -141,7 +145,9 @@ def insertPath (t : AttrTree) : Kids → List Text → Kids
 mutual
   def renderedTree : Node → AttrTree
     | .set _ vs o _ _ => .node (if o.isEmpty then renderedVals vs else renderedItems [] o)
-    | n => .leaf n
+    | .atom t => .leaf (.atom t)
+    | .ident n => .leaf (.ident n)
+    | _ => .leaf (.atom [])
   /-- one item rendered. An explicit binding is one line `name = value;`; an attrpath family
       (`nested = true`) is expanded into one line `name.….leaf = value;` per leaf, which Nix merges
       back into nested sets — a family without leaves leaves no trace in the text. (The `ValueError`
